@@ -147,6 +147,24 @@ func Value(o Object) Object {
 	}
 }
 
+// cmpIntFloat compares an integer with a float by their exact mathematical values.
+// Converting the integer to float64 rounds it beyond 2^53, which made 2^53+1 equal to 2^53.0
+// and the order non transitive. NaN is below everything, like cmp.Compare does for floats.
+func cmpIntFloat(i int64, f float64) int {
+	const two63 = 9223372036854775808.0 // 2^63
+	if f >= two63 {
+		return -1
+	}
+	if !(f >= -two63) { // below every int64, or NaN
+		return 1
+	}
+	t := int64(f) // exact integer part as -2^63 <= f < 2^63
+	if c := cmp.Compare(i, t); c != 0 {
+		return c
+	}
+	return cmp.Compare(0, f-float64(t)) // same integer part: the fraction decides.
+}
+
 func Cmp(ei, ej Object) int {
 	// dereference references
 	ei = Value(ei)
@@ -154,16 +172,11 @@ func Cmp(ei, ej Object) int {
 	ti := ei.Type()
 	tj := ej.Type()
 	if areIntFloat(ti, tj) {
-		// We have float and integer, let's sort them together.
-		var v1, v2 float64
+		// We have float and integer, let's sort them together (by exact value, see cmpIntFloat).
 		if ti == INTEGER {
-			v1 = float64(ei.(Integer).Value)
-			v2 = ej.(Float).Value
-		} else {
-			v1 = ei.(Float).Value
-			v2 = float64(ej.(Integer).Value)
+			return cmpIntFloat(ei.(Integer).Value, ej.(Float).Value)
 		}
-		return cmp.Compare(v1, v2)
+		return -cmpIntFloat(ej.(Integer).Value, ei.(Float).Value)
 	}
 	if ti < tj {
 		return -1
